@@ -20,20 +20,13 @@ func init() {
 
 // cancelMethodName: the string constant whose equality with the frame's method leads to the cancel handler.
 func (c *Ctx) cancelMethodName() (string, bool) {
-	w := c.ws()
-	if w.FrameSwitch == nil || w.Cancel == nil {
-		return "", false
+	isCancelLookup := func(in ssa.Instruction) bool {
+		lk, ok := in.(*ssa.Lookup)
+		return ok && c.fieldVal(lk.X, c.R.FHandling)
 	}
-	for _, s := range callsTo(w.FrameSwitch, w.Cancel) {
-		for _, cf := range expandConds(impliedConds(s.Block())) {
-			if bo, ok := cf.Cond.(*ssa.BinOp); ok && bo.Op == token.EQL && cf.True {
-				if str, ok := constString(bo.Y); ok {
-					return str, true
-				}
-				if str, ok := constString(bo.X); ok {
-					return str, true
-				}
-			}
+	for name, blk := range c.frameMethodTests() {
+		if reachFromBlock(blk, isCancelLookup, nil) != nil {
+			return name, true
 		}
 	}
 	return "", false
@@ -102,7 +95,7 @@ func (c *Ctx) requestLiterals(fn *ssa.Function) []reqLit {
 
 func runC06(c *Ctx) {
 	p, r := c.P, c.R
-	w := c.ws()
+	_ = c.ws()
 	c.rule("R06.1", "caller-side cancel notification: peer's cancel method, the same call's id, sent only in the arm watching the call's context")
 	c.rule("R06.2", "subscription watcher: started with (subscription context, id of the announcing response), waits for the context, sends its own id under the cancel method")
 	c.rule("R06.3", "the cancel handler invokes only the entry looked up under the id decoded from this frame")
@@ -114,284 +107,301 @@ func runC06(c *Ctx) {
 		c.und("R06.1", "cancel method name", "-", "could not determine the method name that reaches the cancel handler")
 	}
 
-	// ---- R06.1
-	{
-		// the doRequest closure: function with a select-send on a request queue and a (ctx, T_creq) signature
-		var doReq *ssa.Function
-		for _, fn := range p.Funcs {
-			if pkgOf(fn) != p.Root.Pkg || fn.Parent() == nil || len(fn.Params) != 2 {
-				continue
-			}
-			if fn.Params[1].Type() != types.Type(r.TCreq) {
-				continue
-			}
-			has := false
-			allInstrs(fn, func(in ssa.Instruction) {
-				if sel, ok := in.(*ssa.Select); ok {
-					for _, st := range sel.States {
-						if ch, ok := st.Chan.Type().Underlying().(*types.Chan); ok && st.Dir == types.SendOnly && ch.Elem() == types.Type(r.TCreq) {
-							has = true
-						}
-					}
-				}
-			})
-			if has {
-				doReq = fn
-			}
+	// request literals with the cancel method, anywhere in the root package
+	type cancelLit struct {
+		lit reqLit
+		fn  *ssa.Function
+	}
+	var lits []cancelLit
+	for _, fn := range p.Funcs {
+		if pkgOf(fn) != p.Root.Pkg {
+			continue
 		}
-		if c.need("R06.1", "WebSocket doRequest closure", doReq != nil) {
-			ctxP, crP := doReq.Params[0], doReq.Params[1]
-			lits := c.requestLiterals(doReq)
-			construct := fmt.Sprintf("%s: cancel notification", fname(doReq))
-			var lit *reqLit
-			for i := range lits {
-				if s, ok := constString(lits[i].Method); ok && haveName && s == cancelName {
-					lit = &lits[i]
-				}
-			}
-			if lit == nil {
-				c.bad("R06.1", construct, p.pos(doReq.Pos()), fmt.Sprintf("no request with method %q is built when the caller's context is done: cancellation never reaches the server", cancelName))
-			} else {
-				okAll := true
-				if lit.ID != nil && !isNilConst(lit.ID) {
-					okAll = false
-					c.bad("R06.1", construct, c.ipos(lit.Alloc), "the cancel message carries an id of its own: the server answers it")
-				}
-				isOwnID := func(v ssa.Value) bool {
-					base, ok := loadsField(v, r.FReqID)
-					if !ok {
-						return false
-					}
-					// base: &cr.req or a copy of the parameter
-					for i := 0; i < 4; i++ {
-						switch x := base.(type) {
-						case *ssa.FieldAddr:
-							base = x.X
-							continue
-						case *ssa.Field:
-							base = x.X
-							continue
-						}
-						break
-					}
-					return c.isParamCopy(base, crP)
-				}
-				if lit.Params == nil || !c.dependsOn(lit.Params, isOwnID, 0, map[ssa.Value]bool{}) {
-					okAll = false
-					c.bad("R06.1", construct, c.ipos(lit.Alloc), "the cancel message's params do not derive from the id of the very call whose context was cancelled: another call (or none) is cancelled")
-				}
-				// built only in the arm receiving from ctx.Done() of the ctx parameter
-				inArm := false
-				for _, cf := range expandConds(impliedConds(lit.Alloc.Block())) {
-					bo, ok := cf.Cond.(*ssa.BinOp)
-					if !ok || bo.Op != token.EQL || !cf.True {
-						continue
-					}
-					ex, ok := bo.X.(*ssa.Extract)
-					if !ok {
-						continue
-					}
-					sel, ok := ex.Tuple.(*ssa.Select)
-					if !ok {
-						continue
-					}
-					k, _ := constInt(bo.Y)
-					if int(k) < len(sel.States) {
-						var lv []ssa.Value
-						leaves(sel.States[k].Chan, map[ssa.Value]bool{}, &lv)
-						for _, l := range lv {
-							if call, ok := l.(*ssa.Call); ok && call.Common().IsInvoke() && call.Common().Method.Name() == "Done" && call.Common().Value == ssa.Value(ctxP) {
-								inArm = true
-							}
-						}
-					}
-				}
-				if !inArm {
-					okAll = false
-					c.bad("R06.1", construct, c.ipos(lit.Alloc), "the cancel message is not sent exactly when this call's own context is done")
-				}
-				if okAll {
-					c.ok("R06.1", construct, c.ipos(lit.Alloc), fmt.Sprintf("method %q, id-less, params from cr.req.ID, in the <-ctx.Done() arm", cancelName))
-				}
+		for _, l := range c.requestLiterals(fn) {
+			if s, ok := constString(l.Method); ok && haveName && s == cancelName {
+				lits = append(lits, cancelLit{l, fn})
 			}
 		}
 	}
+	ownID := func(a apath) bool { return pathEndsWith(a, r.FCreqReq, r.FReqID) }
 
-	// ---- R06.2
-	if c.needWS("R06.2", "ctxAsync", w.CtxAsync) && c.needWS("R06.2", "resp", w.Resp) {
-		wa := w.CtxAsync
+	// ---- R06.1: the caller-side cancel (params = id of the waiting call's own request)
+	{
 		n := 0
-		for _, fn := range p.Funcs {
-			allInstrs(fn, func(in ssa.Instruction) {
-				g, ok := in.(*ssa.Go)
-				if !ok || p.unbound(staticCallee(g)) != wa {
-					return
+		for _, cl := range lits {
+			lit := cl.lit
+			if lit.Params == nil || !c.dependsOnOrigin(lit.Params, ownID) {
+				continue
+			}
+			n++
+			construct := fmt.Sprintf("%s: cancel notification of a waiting call", fname(cl.fn))
+			okAll := true
+			if lit.ID != nil && !isNilConst(lit.ID) {
+				okAll = false
+				c.bad("R06.1", construct, c.ipos(lit.Alloc), "the cancel message carries an id of its own: the server answers it")
+			}
+			// every id that reaches the params is the waiting call's own (rooted at a client-request value of this call)
+			if !c.paramsOnlyFrom(lit.Params, ownID) {
+				okAll = false
+				c.bad("R06.1", construct, c.ipos(lit.Alloc), "the cancel message's params do not derive only from the id of the very call whose context was cancelled: another call (or none) is cancelled")
+			}
+			// built only in the arm receiving from a context's Done()
+			inArm := false
+			for _, cf := range expandConds(impliedCondsIP(lit.Alloc.Block(), 0)) {
+				bo, ok := cf.Cond.(*ssa.BinOp)
+				if !ok || bo.Op != token.EQL || !cf.True {
+					continue
 				}
-				n++
-				construct := fmt.Sprintf("%s: start of the subscription watcher", fname(fn))
-				args := g.Common().Args
-				var ctxArg, idArg ssa.Value
-				for _, a := range args {
-					if isNamed(a.Type(), "context", "Context") {
-						ctxArg = a
-					} else if isEmptyIface(a.Type()) {
-						idArg = a
+				ex, ok := bo.X.(*ssa.Extract)
+				if !ok {
+					continue
+				}
+				sel, ok := ex.Tuple.(*ssa.Select)
+				if !ok {
+					continue
+				}
+				k, _ := constInt(bo.Y)
+				if int(k) < len(sel.States) {
+					if c.someOrigin(sel.States[k].Chan, func(a apath) bool {
+						call, ok := a.Root.(*ssa.Call)
+						return ok && call.Common().IsInvoke() && call.Common().Method.Name() == "Done" && isNamed(call.Common().Value.Type(), "context", "Context")
+					}) {
+						inArm = true
 					}
 				}
-				okAll := true
-				frame := c.frameParamOf(fn)
-				idOK := false
-				if idArg != nil && frame != nil {
-					switch x := idArg.(type) {
-					case *ssa.Field:
-						idOK = c.isParamCopy(x.X, frame) && x.X.Type() == types.Type(r.TFrame) && fieldOfField(x) == respFieldByTag(r.TFrame, "id")
-					case *ssa.UnOp:
-						if fa, ok := x.X.(*ssa.FieldAddr); ok {
-							idOK = c.isParamCopy(fa.X, frame) && fieldOfAddr(fa) == respFieldByTag(r.TFrame, "id")
-						}
-					}
-				}
-				if !idOK {
-					okAll = false
-					c.bad("R06.2", construct, c.ipos(g), "the watcher is not given the id of the response that announced the channel (the request id): cancelling the subscription cancels nothing, or another call whose id happens to equal the value passed (e.g. the channel id)")
-				}
-				// ctx: result #0 of the sink constructor call (retCh field of the looked-up request)
-				ctxOK := false
-				if ex, ok := ctxArg.(*ssa.Extract); ok && ex.Index == 0 {
-					if call, ok := ex.Tuple.(*ssa.Call); ok {
-						if _, isRet := loadsField(call.Common().Value, r.FRetCh); isRet {
-							ctxOK = true
-						} else if f, ok := call.Common().Value.(*ssa.Field); ok && fieldOfField(f) == r.FRetCh {
-							ctxOK = true
-						}
-					}
-				}
-				if !ctxOK {
-					okAll = false
-					c.bad("R06.2", construct, c.ipos(g), "the watcher does not watch the context of the subscription it was started for")
-				}
-				if okAll {
-					c.ok("R06.2", construct, c.ipos(g), "(subscription context, frame.ID)")
-				}
-			})
+			}
+			if !inArm {
+				okAll = false
+				c.bad("R06.1", construct, c.ipos(lit.Alloc), "the cancel message is not sent exactly when the call's own context is done")
+			}
+			if okAll {
+				c.ok("R06.1", construct, c.ipos(lit.Alloc), fmt.Sprintf("method %q, id-less, params from the call's own request id, in the <-ctx.Done() arm", cancelName))
+			}
 		}
 		if n == 0 {
-			c.bad("R06.2", "start of the subscription watcher", "-", "the watcher is never started: cancelling a subscription's context no longer reaches the server")
-		}
-		// inside the watcher
-		construct := fmt.Sprintf("%s: waits, then cancels its own id", fname(wa))
-		var ctxP, idP *ssa.Parameter
-		for _, prm := range wa.Params {
-			if isNamed(prm.Type(), "context", "Context") {
-				ctxP = prm
-			} else if isEmptyIface(prm.Type()) {
-				idP = prm
-			}
-		}
-		var wait ssa.Instruction
-		allInstrs(wa, func(in ssa.Instruction) {
-			if u, ok := in.(*ssa.UnOp); ok && u.Op == token.ARROW {
-				if call, ok := u.X.(*ssa.Call); ok && call.Common().IsInvoke() && call.Common().Method.Name() == "Done" && ctxP != nil && call.Common().Value == ssa.Value(ctxP) {
-					wait = in
-				}
-			}
-		})
-		okAll := true
-		sends := callsTo(wa, w.SendReq)
-		if wait == nil || len(sends) == 0 || idP == nil {
-			okAll = false
-			c.bad("R06.2", construct, p.pos(wa.Pos()), "the watcher does not wait for its context and then send a request")
-		} else {
-			for _, s := range sends {
-				if !mustPrecede(wa, func(x ssa.Instruction) bool { return x == wait }, s) {
-					okAll = false
-					c.bad("R06.2", construct, c.ipos(s), "the cancel can be sent before the subscription's context is done")
-				}
-			}
-			good := false
-			for _, l := range c.requestLiterals(wa) {
-				if s, ok := constString(l.Method); ok && haveName && s == cancelName {
-					if (l.ID == nil || isNilConst(l.ID)) && l.Params != nil && c.dependsOn(l.Params, func(v ssa.Value) bool { return v == ssa.Value(idP) }, 0, map[ssa.Value]bool{}) {
-						good = true
-					}
-				}
-			}
-			if !good {
-				okAll = false
-				c.bad("R06.2", construct, p.pos(wa.Pos()), "the watcher does not send an id-less cancel message whose params derive from its id argument")
-			}
-		}
-		if okAll {
-			c.ok("R06.2", construct, c.ipos(wait), "<-ctx.Done() precedes the send; params from the id argument")
+			c.bad("R06.1", "cancel notification of a waiting call", "-", fmt.Sprintf("no request with method %q carrying the waiting call's id is built: cancelling a call's context never reaches the server", cancelName))
 		}
 	}
 
-	// ---- R06.3 / R06.4
+	// ---- R06.2: the subscription watcher
 	{
-		isCancelFuncCall := func(in ssa.Instruction) (ssa.Value, bool) {
-			ci, ok := in.(ssa.CallInstruction)
-			if !ok || ci.Common().IsInvoke() || ci.Common().Value == nil {
-				return nil, false
-			}
-			if isNamed(ci.Common().Value.Type(), "context", "CancelFunc") {
-				return ci.Common().Value, true
-			}
-			return nil, false
+		// watcher functions: go-spawned, (context, interface{}) parameters, their cone builds a cancel literal from the id parameter
+		type watcher struct {
+			fn       *ssa.Function
+			ctxP     *ssa.Parameter
+			idP      *ssa.Parameter
+			literals []cancelLit
 		}
+		var ws []watcher
+		for _, fn := range p.Funcs {
+			if pkgOf(fn) != p.Root.Pkg {
+				continue
+			}
+			var ctxP, idP *ssa.Parameter
+			for _, prm := range fn.Params {
+				if isNamed(prm.Type(), "context", "Context") {
+					ctxP = prm
+				} else if isEmptyIface(prm.Type()) {
+					idP = prm
+				}
+			}
+			if ctxP == nil || idP == nil || !c.spawnedAsGoroutine(fn) {
+				continue
+			}
+			wt := watcher{fn: fn, ctxP: ctxP, idP: idP}
+			for _, cl := range lits {
+				if p.inCone(fn, cl.lit.Alloc) && cl.lit.Params != nil && c.dependsOn(cl.lit.Params, func(v ssa.Value) bool { return v == ssa.Value(idP) }, 0, map[ssa.Value]bool{}) {
+					wt.literals = append(wt.literals, cl)
+				}
+			}
+			if len(wt.literals) > 0 {
+				ws = append(ws, wt)
+			}
+		}
+		if len(ws) == 0 {
+			c.bad("R06.2", "subscription watcher", "-", "no goroutine waits for a subscription's context and then cancels its id: cancelling a subscription's context no longer reaches the server")
+		}
+		for _, wt := range ws {
+			wa := wt.fn
+			construct := fmt.Sprintf("%s: waits, then cancels its own id", fname(wa))
+			var wait ssa.Instruction
+			p.coneInstrs(wa, func(in ssa.Instruction) {
+				if u, ok := in.(*ssa.UnOp); ok && u.Op == token.ARROW {
+					if call, ok := u.X.(*ssa.Call); ok && call.Common().IsInvoke() && call.Common().Method.Name() == "Done" && (call.Common().Value == ssa.Value(wt.ctxP) || c.isParamCopy(call.Common().Value, wt.ctxP)) {
+						wait = in
+					}
+				}
+			})
+			okAll := true
+			if wait == nil {
+				okAll = false
+				c.bad("R06.2", construct, p.pos(wa.Pos()), "the watcher does not wait for its context")
+			} else {
+				p.coneInstrs(wa, func(in ssa.Instruction) {
+					if c.isRequestWrite(in) && !mustPrecedeIP(in, func(x ssa.Instruction) bool { return x == wait }, 0) {
+						// writes in the shared request writer are reached from many places; only the path from this watcher matters
+						if reachFromEntry(wa, func(x ssa.Instruction) bool { return x == in }, func(x ssa.Instruction) bool { return x == wait }) != nil {
+							okAll = false
+							c.bad("R06.2", construct, c.ipos(in), "the cancel can be sent before the subscription's context is done")
+						}
+					}
+				})
+			}
+			for _, cl := range wt.literals {
+				if cl.lit.ID != nil && !isNilConst(cl.lit.ID) {
+					okAll = false
+					c.bad("R06.2", construct, c.ipos(cl.lit.Alloc), "the watcher's cancel message carries an id of its own")
+				}
+			}
+			if okAll {
+				c.ok("R06.2", construct, c.ipos(wait), "<-ctx.Done() precedes the send; params from the id argument")
+			}
+			// spawn sites
+			for _, s := range p.callers[wa] {
+				g, ok := s.(*ssa.Go)
+				if !ok {
+					continue
+				}
+				cons := fmt.Sprintf("%s: start of the subscription watcher", fname(g.Parent()))
+				var ctxArg, idArg ssa.Value
+				for i, a := range g.Common().Args {
+					if i < len(wa.Params) {
+						if wa.Params[i] == wt.ctxP {
+							ctxArg = a
+						}
+						if wa.Params[i] == wt.idP {
+							idArg = a
+						}
+					}
+				}
+				ok2 := true
+				// the id: the id of the response frame being handled (same origins as the in-flight lookup key of this activity)
+				frameIDok := idArg != nil && c.allOrigins(idArg, func(a apath) bool {
+					if ex, ok := a.Root.(*ssa.Extract); ok && ex.Index == 0 {
+						if call, ok := ex.Tuple.(*ssa.Call); ok && staticCallee(call) == r.FnNorm {
+							return r.FnExec != nil && p.inCone(r.FnExec, call)
+						}
+					}
+					return a.last() != nil && a.last() == respFieldByTag(r.TFrame, "id")
+				})
+				if !frameIDok {
+					ok2 = false
+					c.bad("R06.2", cons, c.ipos(g), "the watcher is not given the id of the response that announced the channel (the request id): cancelling the subscription cancels nothing, or another call whose id happens to equal the value passed (e.g. the channel id)")
+				}
+				ctxOK := ctxArg != nil && c.allOrigins(ctxArg, func(a apath) bool {
+					ex, ok := a.Root.(*ssa.Extract)
+					if !ok || ex.Index != 0 {
+						return false
+					}
+					call, ok := ex.Tuple.(*ssa.Call)
+					return ok && c.fieldVal(call.Common().Value, r.FRetCh)
+				})
+				if !ctxOK {
+					ok2 = false
+					c.bad("R06.2", cons, c.ipos(g), "the watcher does not watch the context of the subscription it was started for")
+				}
+				if ok2 {
+					c.ok("R06.2", cons, c.ipos(g), "(subscription context, id of the announcing response)")
+				}
+			}
+		}
+	}
+
+	// ---- R06.3 / R06.4: closed world of cancel-function invocations, classified by what is being invoked
+	{
 		n := 0
 		for _, fn := range p.Funcs {
 			if pkgOf(fn) != p.Root.Pkg {
 				continue
 			}
-			allInstrs(fn, func(in ssa.Instruction) {
-				v, ok := isCancelFuncCall(in)
-				if !ok {
+			allInstrsRaw(fn, func(in ssa.Instruction) {
+				ci, ok := in.(ssa.CallInstruction)
+				if !ok || ci.Common().IsInvoke() || ci.Common().Value == nil || !isNamed(ci.Common().Value.Type(), "context", "CancelFunc") {
 					return
 				}
 				n++
 				construct := fmt.Sprintf("%s: invocation of a cancel function", fname(fn))
+				kinds := map[string]bool{}
+				var lookups []*ssa.Lookup
+				for _, a := range c.origins(ci.Common().Value) {
+					k := "other"
+					if ex, ok := a.Root.(*ssa.Extract); ok && len(a.Fields) == 0 {
+						switch t := ex.Tuple.(type) {
+						case *ssa.Lookup:
+							if c.fieldVal(t.X, r.FHandling) {
+								k = "lookup"
+								lookups = append(lookups, t)
+							}
+						case *ssa.Next:
+							if rg, ok := t.Iter.(*ssa.Range); ok && c.fieldVal(rg.X, r.FHandling) {
+								k = "sweep"
+							}
+						case *ssa.Call:
+							if ex.Index == 1 && calleeName(t) == "context.WithCancel" {
+								if t.Parent() == r.FnLoop {
+									k = "loop"
+								} else {
+									k = "percall"
+								}
+							}
+						}
+					}
+					if lk, ok := a.Root.(*ssa.Lookup); ok && len(a.Fields) == 0 && c.fieldVal(lk.X, r.FHandling) {
+						k = "lookup"
+						lookups = append(lookups, lk)
+					}
+					kinds[k] = true
+				}
+				if len(kinds) != 1 {
+					c.bad("R06.4", construct, c.ipos(in), "the cancel function invoked here has mixed or unknown origins")
+					return
+				}
 				switch {
-				case fn == w.Cancel:
-					// looked-up entry under ok
-					ex, isEx := v.(*ssa.Extract)
-					good := false
-					if isEx && ex.Index == 0 {
-						if lk, ok := ex.Tuple.(*ssa.Lookup); ok && isLoadOf(lk.X, r.FHandling) {
-							var okv ssa.Value
+				case kinds["lookup"]:
+					good := !inLoop(in.Block())
+					for _, lk := range lookups {
+						var okv ssa.Value
+						if lk.CommaOk {
 							for _, ref := range *lk.Referrers() {
 								if e2, ok := ref.(*ssa.Extract); ok && e2.Index == 1 {
 									okv = e2
 								}
 							}
-							if okv != nil && condKnown(in.Block(), okv, true) && !inLoop(in.Block()) {
-								good = true
+						}
+						found := false
+						for _, cf := range expandConds(impliedCondsIP(in.Block(), 0)) {
+							if cf.True && okv != nil && c.someOrigin(cf.Cond, func(a apath) bool { return a.Root == okv }) {
+								found = true
 							}
 						}
-					}
-					c.check(good, "R06.3", construct, c.ipos(in), "the entry found under the decoded id", "the cancel handler cancels something other than the single entry looked up under the id carried by this cancel message (e.g. it sweeps the table): unrelated calls are cancelled")
-				case fn == w.Failer:
-					// ranged over the handling table
-					good := false
-					if ex, ok := v.(*ssa.Extract); ok {
-						if nx, ok := ex.Tuple.(*ssa.Next); ok {
-							if rg, ok := nx.Iter.(*ssa.Range); ok && isLoadOf(rg.X, r.FHandling) {
-								good = true
-							}
+						if !found {
+							good = false
 						}
 					}
-					c.check(good, "R06.4", construct, c.ipos(in), "connection-loss sweep over the handling table", "unexpected cancel invocation in the failer")
-				case fn == r.FnLoop:
+					c.check(good, "R06.3", construct, c.ipos(in), "the single entry found under the decoded id", "the cancel handler cancels something other than the single entry looked up (and found) under the id carried by this cancel message: unrelated calls are cancelled")
+				case kinds["sweep"]:
+					c.ok("R06.4", construct, c.ipos(in), "connection-loss sweep over the handling table")
+				case kinds["loop"]:
 					_, isDefer := in.(*ssa.Defer)
 					c.check(isDefer, "R06.4", construct, c.ipos(in), "deferred per-connection cancel", "the per-connection context is cancelled while the loop is still serving: every handler on the connection is cancelled although nobody asked")
-				case fn.Parent() != nil && outermost(fn) == w.Spawn:
-					// completion closure: only under !keep
+				case kinds["percall"]:
+					// the call's own completion: only where the context need not be kept (keep == false)
 					good := false
-					for _, cf := range expandConds(impliedConds(in.Block())) {
-						if prm, ok := cf.Cond.(*ssa.Parameter); ok && !cf.True && prm.Parent() == fn {
-							good = true
+					for _, cf := range expandConds(impliedCondsIP(in.Block(), 0)) {
+						if !cf.True {
+							if c.someOrigin(cf.Cond, func(a apath) bool {
+								prm, ok := a.Root.(*ssa.Parameter)
+								if !ok {
+									return false
+								}
+								b, ok := prm.Type().Underlying().(*types.Basic)
+								return ok && b.Kind() == types.Bool
+							}) {
+								good = true
+							}
 						}
 					}
-					c.check(good, "R06.4", construct, c.ipos(in), "completion closure, only when the context need not be kept", "the per-call context is cancelled at completion even when the handler returned a channel (keep): the subscription is cancelled as soon as it is announced")
+					c.check(good, "R06.4", construct, c.ipos(in), "completion of the call, only when the context need not be kept", "the per-call context is cancelled at completion even when the handler returned a channel (keep): the subscription is cancelled as soon as it is announced")
 				default:
 					c.bad("R06.4", construct, c.ipos(in), "a handler context is cancelled from a place that is neither the caller's cancel message, the connection end nor the call's own completion")
 				}
@@ -400,14 +410,13 @@ func runC06(c *Ctx) {
 		if n == 0 {
 			c.und("R06.4", "cancel-function invocations", "-", "none found")
 		}
-		if w.Cancel != nil {
-			rng := false
-			allInstrs(w.Cancel, func(in ssa.Instruction) {
-				if rg, ok := in.(*ssa.Range); ok && isLoadOf(rg.X, r.FHandling) {
-					rng = true
-				}
-			})
-			c.check(!rng, "R06.3", fmt.Sprintf("%s: no sweep", fname(w.Cancel)), p.pos(w.Cancel.Pos()), "no range over the handling table", "the cancel handler ranges over all running calls")
+		// no range over the handling table on the cancel-message path
+		for name, blk := range c.frameMethodTests() {
+			if name != cancelName {
+				continue
+			}
+			sweep := reachFromBlock(blk, func(in ssa.Instruction) bool { return c.isRangeOver(in, r.FHandling) }, nil)
+			c.check(sweep == nil, "R06.3", "cancel message: no sweep", c.ipos(blk.Instrs[0]), "no range over the handling table", "the cancel handler ranges over all running calls")
 		}
 		// dispatcher: done(...) calls
 		if r.FnDisp != nil {
@@ -422,25 +431,24 @@ func runC06(c *Ctx) {
 			}
 			if c.need("R06.4", "completion callback parameter of the dispatcher", doneP != nil) {
 				ndone := 0
-				allInstrs(d, func(in ssa.Instruction) {
+				p.coneInstrs(d, func(in ssa.Instruction) {
 					ci, ok := in.(ssa.CallInstruction)
-					if !ok || ci.Common().Value != ssa.Value(doneP) {
+					if !ok || ci.Common().Value == nil || !c.isParamOrForwarded(ci.Common().Value, doneP) {
 						return
 					}
 					ndone++
 					construct := fmt.Sprintf("%s: completion callback", fname(d))
 					if _, isDefer := in.(*ssa.Defer); isDefer {
-						// the deferred completion must be registered on every path to the user call (so the context is released afterwards)
 						okd := true
-						allInstrs(d, func(x ssa.Instruction) {
-							if c.isUserCall(x) && !mustPrecede(d, func(y ssa.Instruction) bool { return y == in }, x) {
+						p.coneInstrs(d, func(x ssa.Instruction) {
+							if c.isUserCall(x) && !mustPrecedeIP(x, func(y ssa.Instruction) bool { return y == in }, 0) {
 								okd = false
 							}
 						})
 						c.check(okd, "R06.4", construct+" (deferred)", c.ipos(in), "registered before the handler runs; executes after it", "the handler can run on a path where its completion is not registered: its cancel entry is never released")
 						return
 					}
-					if wv := reachFrom(in, c.isUserCall, nil); wv != nil {
+					if wv := reachFromUp(in, c.isUserCall, nil); wv != nil {
 						c.bad("R06.4", construct, c.ipos(in), "the call's context is released/cancelled before the handler runs on this path: the handler sees a cancelled context although the caller did not cancel")
 					} else {
 						c.ok("R06.4", construct, c.ipos(in), "only on a path that returns without running the handler")
@@ -454,131 +462,90 @@ func runC06(c *Ctx) {
 	}
 
 	// ---- R06.5
-	if c.needWS("R06.5", "spawn", w.Spawn) {
-		sp := w.Spawn
-		construct := fmt.Sprintf("%s: cancel entry registered before the handler starts", fname(sp))
-		var reg *ssa.MapUpdate
-		for _, u := range usesOfKind(p.uses(r.FHandling), "mapupdate") {
-			if u.Fn == sp {
-				reg = u.At.(*ssa.MapUpdate)
-			} else {
-				c.bad("R06.5", construct, c.ipos(u.At), "the cancel function is registered outside the executor's own goroutine (e.g. inside the per-call goroutine): a cancel message that directly follows the call is looked up before the entry exists and is lost")
-			}
+	{
+		invs := c.dispInvokes()
+		regs := usesOfKind(p.uses(r.FHandling), "mapupdate")
+		construct := "cancel entry registered before the handler starts"
+		if len(invs) == 0 || len(regs) == 0 {
+			c.bad("R06.5", construct, "-", "handlers are started without their cancel function ever being registered (or no dispatcher invocation found)")
 		}
-		var spawn ssa.Instruction
-		allInstrs(sp, func(in ssa.Instruction) {
-			if g, ok := in.(*ssa.Go); ok {
-				spawn = g
-			}
-		})
-		if reg != nil && spawn != nil {
-			okAll := true
-			// for id-bearing requests the registration precedes the spawn
-			isT := func(in ssa.Instruction) bool { return in == spawn }
-			edge := func(from *ssa.BasicBlock, k int) bool {
-				iff, ok := from.Instrs[len(from.Instrs)-1].(*ssa.If)
-				if !ok {
+		isReg := func(x ssa.Instruction) bool {
+			for _, u := range regs {
+				if x == u.At {
 					return true
 				}
-				isTest, nn := c.idNilTestFrame(iff.Cond)
-				if !isTest {
-					return true
-				}
-				nonNil := nn
-				if k == 1 {
-					nonNil = !nn
-				}
-				return nonNil
 			}
-			if wv := reachFromBlockF(sp.Blocks[0], isT, func(in ssa.Instruction) bool { return in == ssa.Instruction(reg) }, edge); wv != nil {
-				okAll = false
-				c.bad("R06.5", construct, c.ipos(spawn), "an id-bearing call can be started before its cancel function is registered")
+			return false
+		}
+		idNonNil := func(from *ssa.BasicBlock, k int) bool {
+			iff, ok := from.Instrs[len(from.Instrs)-1].(*ssa.If)
+			if !ok {
+				return true
 			}
-			// key = frame id; value = cancel of the WithCancel whose ctx goes to the handler
-			var wc *ssa.Call
-			{
-				var lv []ssa.Value
-				leaves(reg.Value, map[ssa.Value]bool{}, &lv)
-				if len(lv) == 1 {
-					if ex, ok := lv[0].(*ssa.Extract); ok && ex.Index == 1 {
-						wc, _ = ex.Tuple.(*ssa.Call)
-					}
-				}
+			isTest, nn := c.idNilTestFrame(iff.Cond)
+			if !isTest {
+				return true
 			}
-			isCtxOfWC := func(v ssa.Value) bool {
-				if ld, ok := v.(*ssa.UnOp); ok && ld.Op == token.MUL {
-					if cv := p.canonVar(ld.X); cv != ld.X {
-						v = &ssa.UnOp{Op: token.MUL, X: cv}
-					}
-				}
-				var lv []ssa.Value
-				leaves(v, map[ssa.Value]bool{}, &lv)
-				for _, l := range lv {
-					if ex, ok := l.(*ssa.Extract); ok && ex.Index == 0 && wc != nil && ex.Tuple == ssa.Value(wc) {
+			nonNil := nn
+			if k == 1 {
+				nonNil = !nn
+			}
+			return nonNil
+		}
+		for _, u := range regs {
+			c.check(r.FnExec != nil && p.inCone(r.FnExec, u.At), "R06.5", construct+" (on the executor goroutine)", c.ipos(u.At), "registered synchronously by the frame executor",
+				"the cancel function is registered outside the executor's own goroutine (e.g. inside the per-call goroutine): a cancel message that directly follows the call is looked up before the entry exists and is lost")
+			// key = id of the frame being dispatched; value = cancel of a WithCancel
+			keyOK := c.allOrigins(u.Val, func(a apath) bool {
+				if ex, ok := a.Root.(*ssa.Extract); ok && ex.Index == 0 {
+					if call, ok := ex.Tuple.(*ssa.Call); ok && staticCallee(call) == r.FnNorm {
 						return true
 					}
 				}
-				return false
-			}
-			if wc == nil || calleeName(wc) != "context.WithCancel" {
+				return a.last() != nil && a.last() == respFieldByTag(r.TFrame, "id")
+			})
+			c.check(keyOK, "R06.5", construct+" (key)", c.ipos(u.At), "under the id of the call being started", "the cancel function is not registered under the id of the call being started")
+		}
+		for _, in := range invs {
+			okAll := true
+			if !mustPrecedeIPF(in, isReg, idNonNil, 0) {
 				okAll = false
-				c.bad("R06.5", construct, c.ipos(reg), "the registered value is not the cancel function of a context.WithCancel made for this call")
-			} else {
-				gi := spawn.(*ssa.Go)
-				paired := false
-				for _, a := range gi.Common().Args {
-					if isCtxOfWC(a) {
+				c.bad("R06.5", construct, c.ipos(in), "an id-bearing call can be started before its cancel function is registered")
+			}
+			// pairing: the handler's context is the one a registered cancel function cancels
+			var arg ssa.Value
+			for _, a := range in.(ssa.CallInstruction).Common().Args {
+				if isNamed(a.Type(), "context", "Context") {
+					arg = a
+				}
+			}
+			paired := false
+			for _, u := range regs {
+				mu := u.At.(*ssa.MapUpdate)
+				for _, a := range c.origins(mu.Value) {
+					ex, ok := a.Root.(*ssa.Extract)
+					if !ok || ex.Index != 1 {
+						continue
+					}
+					wc, ok := ex.Tuple.(*ssa.Call)
+					if !ok || calleeName(wc) != "context.WithCancel" {
+						continue
+					}
+					if arg != nil && c.ctxDerives(arg, func(v ssa.Value) bool {
+						e0, ok := v.(*ssa.Extract)
+						return ok && e0.Index == 0 && e0.Tuple == ssa.Value(wc)
+					}, 0, map[ssa.Value]bool{}) {
 						paired = true
 					}
 				}
-				// the dispatcher may also be invoked inside a closure; then the ctx is captured
-				if !paired {
-					if cl := staticCallee(gi); cl != nil {
-						for _, mc := range p.closure[cl] {
-							for _, b := range mc.Bindings {
-								if isCtxOfWC(b) || isCtxOfWC(&ssa.UnOp{Op: token.MUL, X: b}) {
-									paired = true
-								}
-							}
-						}
-					}
-				}
-				if !paired {
-					okAll = false
-					c.bad("R06.5", construct, c.ipos(spawn), "the context handed to the handler is not the one the registered cancel function cancels")
-				}
-				// parent of that context = the spawner's context parameter
-				var spCtx *ssa.Parameter
-				for _, prm := range sp.Params {
-					if isNamed(prm.Type(), "context", "Context") {
-						spCtx = prm
-					}
-				}
-				derives := func(v ssa.Value) bool {
-					// the variable may be re-assigned from the WithCancel result itself: accept the parameter among its origins
-					var lv []ssa.Value
-					leaves(v, map[ssa.Value]bool{}, &lv)
-					for _, l := range lv {
-						if l == ssa.Value(spCtx) {
-							return true
-						}
-					}
-					return false
-				}
-				if len(wc.Common().Args) != 1 || spCtx == nil || !derives(wc.Common().Args[0]) {
-					okAll = false
-					c.bad("R06.5", construct, c.ipos(wc), "the per-call context is not derived from the connection's context handed to the spawner")
-				}
 			}
-			if isT, _ := c.idFieldOfFrame(reg.Key, sp); !isT {
+			if !paired {
 				okAll = false
-				c.bad("R06.5", construct, c.ipos(reg), "the cancel function is not registered under the id of the call being started")
+				c.bad("R06.5", construct, c.ipos(in), "the context handed to the handler is not the one the registered cancel function cancels")
 			}
 			if okAll {
-				c.ok("R06.5", construct, c.ipos(reg), "handling[frame.ID] = cancel of the handler's own context, before `go handle`")
+				c.ok("R06.5", construct, c.ipos(in), "handling[id] = cancel of the handler's own context, before the handler goroutine starts")
 			}
-		} else if spawn == nil {
-			c.und("R06.5", construct, p.pos(sp.Pos()), "no goroutine spawn in the call spawner")
 		}
 	}
 
@@ -729,48 +696,21 @@ func (c *Ctx) ctxDerivation(rule string) {
 			c.und(rule, "HTTP client doRequest", "-", "not found")
 		}
 	}
-	// (d) WebSocket: the context handed from the loop to the executor, and on to the spawner, is the loop's cancellable context
-	if r.FnLoop != nil && r.FnExec != nil {
-		construct := fmt.Sprintf("%s: per-connection context reaches the handlers", fname(r.FnLoop))
-		okAll := true
-		nspawn := 0
-		allInstrs(r.FnLoop, func(in ssa.Instruction) {
-			g, ok := in.(*ssa.Go)
-			if !ok || p.unbound(staticCallee(g)) != r.FnExec {
-				return
-			}
-			nspawn++
+	// (d) WebSocket: the context a handler gets derives from the loop's cancellable per-connection context
+	if r.FnLoop != nil {
+		for _, in := range c.dispInvokes() {
+			construct := fmt.Sprintf("%s: per-connection context reaches the handler", fname(outermost(in.Parent())))
 			var arg ssa.Value
-			for _, a := range g.Common().Args {
+			for _, a := range in.(ssa.CallInstruction).Common().Args {
 				if isNamed(a.Type(), "context", "Context") {
 					arg = a
 				}
 			}
-			if arg == nil || !c.isLoopCtx(arg) {
-				okAll = false
-			}
-		})
-		// executor -> frame switch -> spawner: context parameter passed through unchanged
-		chain := []*ssa.Function{r.FnExec, w.FrameSwitch, w.Spawn}
-		for i := 0; i+1 < len(chain); i++ {
-			if chain[i] == nil || chain[i+1] == nil {
-				okAll = false
-				continue
-			}
-			for _, s := range callsTo(chain[i], chain[i+1]) {
-				passed := false
-				for _, a := range s.Common().Args {
-					if isNamed(a.Type(), "context", "Context") && c.isParamCopyCtx(a, chain[i]) {
-						passed = true
-					}
-				}
-				if !passed {
-					okAll = false
-				}
-			}
+			c.check(arg != nil && c.ctxDerives(arg, c.isLoopCtxRoot, 0, map[ssa.Value]bool{}), rule, construct, c.ipos(in),
+				"derives from the loop's WithCancel context through cancellation-preserving steps", "the handlers' contexts do not derive from the per-connection context that is cancelled when the connection ends")
 		}
-		c.check(okAll && nspawn > 0, rule, construct, p.pos(r.FnLoop.Pos()), "loop's WithCancel context -> executor -> frame switch -> spawner", "the handlers' contexts do not derive from the per-connection context that is cancelled when the connection ends")
 	}
+	_ = w
 }
 
 // ctxDerives: context value v is `target` itself or obtained from it only through
@@ -828,18 +768,25 @@ func (c *Ctx) ctxDerives(v ssa.Value, target func(ssa.Value) bool, depth int, se
 			return true
 		}
 		seen[al] = true
-		// every store into the variable must derive (the parameter spill and later re-derivations)
+		// every store that can reach this load must derive (the parameter spill and later re-derivations)
 		n := 0
-		for _, ref := range *al.Referrers() {
-			if st, ok := ref.(*ssa.Store); ok && st.Addr == ssa.Value(al) {
-				n++
-				s2 := map[ssa.Value]bool{}
-				for k := range seen {
-					s2[k] = true
+		var at ssa.Instruction = x
+		if x.Parent() != al.Parent() {
+			// captured variable: what it held when the closure was created
+			for f := x.Parent(); f != nil && f != al.Parent(); f = f.Parent() {
+				if mcs := c.P.closure[f]; len(mcs) == 1 && mcs[0].Parent() == al.Parent() {
+					at = mcs[0]
 				}
-				if !c.ctxDerives(st.Val, target, depth+1, s2) {
-					return false
-				}
+			}
+		}
+		for _, st := range reachingStores(al, at) {
+			n++
+			s2 := map[ssa.Value]bool{}
+			for k := range seen {
+				s2[k] = true
+			}
+			if !c.ctxDerives(st.Val, target, depth+1, s2) {
+				return false
 			}
 		}
 		return n > 0
@@ -853,6 +800,51 @@ func (c *Ctx) ctxDerives(v ssa.Value, target func(ssa.Value) bool, depth int, se
 				}
 			}
 		}
+		// pprof.Do(ctx, labels, obj.method): bound method value
+		for _, f2 := range c.P.Funcs {
+			found := false
+			var arg ssa.Value
+			allInstrsRaw(f2, func(in ssa.Instruction) {
+				ci, ok := in.(*ssa.Call)
+				if !ok || calleeName(ci) != "runtime/pprof.Do" {
+					return
+				}
+				if mc, ok := ci.Common().Args[2].(*ssa.MakeClosure); ok {
+					if g, ok := mc.Fn.(*ssa.Function); ok && c.P.unbound(g) == fn {
+						found, arg = true, ci.Common().Args[0]
+					}
+				}
+			})
+			if found {
+				return c.ctxDerives(arg, target, depth+1, seen)
+			}
+		}
+		// ordinary parameter: every static call site (call, go, defer) must pass a deriving context
+		idx := -1
+		for i, q := range fn.Params {
+			if q == x {
+				idx = i
+			}
+		}
+		sites := c.P.callers[fn]
+		if idx < 0 || len(sites) == 0 || c.P.asyncValueUsed(fn) {
+			return false
+		}
+		for _, s := range sites {
+			if idx >= len(s.Common().Args) {
+				return false
+			}
+			s2 := map[ssa.Value]bool{}
+			for k := range seen {
+				s2[k] = true
+			}
+			if !c.ctxDerives(s.Common().Args[idx], target, depth+1, s2) {
+				return false
+			}
+		}
+		return true
+	case *ssa.FreeVar:
+		return false
 	}
 	return false
 }
@@ -904,4 +896,66 @@ func (c *Ctx) ctxCallDerives(call *ssa.Call, resIdx int, target func(ssa.Value) 
 		return false
 	}
 	return c.ctxDerives(call.Common().Args[pidx], target, depth+1, seen)
+}
+
+// dependsOnOrigin: some value v transitively depends on has an origin satisfying pred.
+func (c *Ctx) dependsOnOrigin(v ssa.Value, pred func(apath) bool) bool {
+	return c.dependsOn(v, func(x ssa.Value) bool {
+		if _, isInstr := x.(ssa.Instruction); !isInstr {
+			if _, isParam := x.(*ssa.Parameter); !isParam {
+				return false
+			}
+		}
+		if !isEmptyIface(x.Type()) {
+			return false
+		}
+		return c.someOrigin(x, pred)
+	}, 0, map[ssa.Value]bool{})
+}
+
+// paramsOnlyFrom: every interface-typed id value feeding the marshalled params satisfies pred.
+func (c *Ctx) paramsOnlyFrom(v ssa.Value, pred func(apath) bool) bool {
+	ok := true
+	found := false
+	c.dependsOn(v, func(x ssa.Value) bool {
+		call, isCall := x.(*ssa.Call)
+		if !isCall || calleeName(call) != "reflect.ValueOf" {
+			return false
+		}
+		found = true
+		if !c.allOrigins(stripConv(call.Common().Args[0]), pred) {
+			ok = false
+		}
+		return false
+	}, 0, map[ssa.Value]bool{})
+	return ok && found
+}
+
+// isParamOrForwarded: v is parameter prm, a local copy of it, or a parameter of a helper that
+// receives prm (or a forwarded copy) at every synchronous call site.
+func (c *Ctx) isParamOrForwarded(v ssa.Value, prm *ssa.Parameter) bool {
+	if v == ssa.Value(prm) || c.isParamCopy(v, prm) {
+		return true
+	}
+	q, ok := v.(*ssa.Parameter)
+	if !ok {
+		return false
+	}
+	fn := q.Parent()
+	idx := -1
+	for i, x := range fn.Params {
+		if x == q {
+			idx = i
+		}
+	}
+	sites := c.P.syncCallers(fn)
+	if idx < 0 || len(sites) == 0 {
+		return false
+	}
+	for _, s := range sites {
+		if idx >= len(s.Common().Args) || !c.isParamOrForwarded(s.Common().Args[idx], prm) {
+			return false
+		}
+	}
+	return true
 }
